@@ -305,12 +305,14 @@ def reject(F, R, cg):
             R.ob('C02.reject', '%s|0x%02X|once-only' % (pk, pid), info['once'] and not info['repeat'],
                  'property 0x%02X may appear at most once in %s but is not decoded through the duplicate-rejecting path (read_value / is_none guard)' % (pid, pk), b.loc(sb))
     rv = F.one(r'^<std::option::Option<T> as utils::Property>::read_value$')
-    isn = [(bi, t) for bi, t in rv.calls_to(r'Option::<T>::is_none$')]
+    isn = [(bi, t) for bi, t in rv.calls_to(r'Option::<T>::(is_none|is_some)$')]
     ok = False
     for bi, t in isn:
         r = call_bool_branch(rv, bi)
         if r and r[0] != 'discr':
-            freg = rv.reachable(r[2], avoid=[r[1]])
+            # the edge on which the property is already set: is_some() true / is_none() false
+            set_edge, unset_edge = (r[1], r[2]) if (callee_name(t) or '').endswith('is_some') else (r[2], r[1])
+            freg = rv.reachable(set_edge, avoid=[unset_edge])
             ok = any(x in freg for x, j, s in agg_sites(rv, r'^std::result::Result$', 'Err')) and not any(x in freg for x, t2 in rv.calls() if 'Decode' in (callee_name(t2) or ''))
     R.ob('C02.reject', 'Option::read_value|duplicate=>Err', ok, 'read_value must refuse a property that is already set')
     # no transmute / unchecked constructors reachable
